@@ -200,6 +200,20 @@ theorem compressFrom_spec (log : Log N V) (names : List N) (hnd : names.Nodup)
     simp only [decodeAll, hdec ext]
     rw [hm, h1, List.append_assoc, decodeStep_map _ _ _ hmem]
 
+theorem jsonLog_of_finite (finite : V → Bool) (log : Log N V)
+    (h : ∀ s ∈ log, ∀ e ∈ s, ∀ v, e.2 = some v → finite v = true) : jsonLog finite log = log := by
+  unfold jsonLog
+  conv => rhs; rw [← List.map_id log]
+  apply List.map_congr_left
+  intro st hst
+  conv => rhs; rw [id, ← List.map_id st]
+  apply List.map_congr_left
+  intro e he
+  obtain ⟨n, v⟩ := e
+  cases v with
+  | none => rfl
+  | some x => simp [jsonValue, h st hst (n, some x) he x rfl]
+
 /-! ### Order of a step's entries in the export does not matter -/
 
 theorem decodeStep_perm (names : List N) {m m' : List (Nat × Option V)} (h : m.Perm m') :
